@@ -136,8 +136,8 @@ impl Property for C13 {
     }
     fn budget(&self, tier: Tier) -> Budget {
         match tier {
-            Tier::Quick => Budget { cases: 40_000, min_len: 4, max_len: 400 },
-            Tier::Thorough => Budget { cases: 3_000_000, min_len: 4, max_len: 700 },
+            Tier::Quick => Budget { cases: 500000, min_len: 4, max_len: 400 },
+            Tier::Thorough => Budget { cases: 10000000, min_len: 4, max_len: 700 },
         }
     }
 
